@@ -26,10 +26,12 @@ def gen_cfg(rng, shape=None):
         cfg["threshold"] = rng.choice([1, 5, 10, 100])
     if rng.random() < 0.15:
         cfg["max_stack"] = rng.choice([1, 2, 3, 4])
+    facts = rng.choice(["none", "none", "all", "mixed"])     # -F/-N spelled as -T f@filter / f@notrace
     for k in rng.sample(range(6), rng.randrange(0, 4)):
         tr = {}
         if rng.random() < 0.55:
             tr["filter"] = rng.random() < 0.6
+            tr["as_action"] = (facts == "all") or (facts == "mixed" and rng.random() < 0.5)
         if rng.random() < 0.3:
             tr["depth"] = rng.choice([0, 1, 2, 3])
         if rng.random() < 0.3:
@@ -104,8 +106,9 @@ def inproc(ctx):
     selcases = []
     for i in range(ctx.n(50, 600)):
         cfg = {"shape": rng.choice(["pg", "cyg"]), "trig": {}, "pattern": rng.choice(["simple", "regex", "glob"])}
+        facts = rng.choice(["none", "none", "all", "mixed"])
         for k in rng.sample(range(6), rng.randrange(1, 4)):
-            cfg["trig"][k] = {"filter": rng.random() < 0.6}
+            cfg["trig"][k] = {"filter": rng.random() < 0.6, "as_action": facts == "all" or (facts == "mixed" and rng.random() < 0.5)}
         if rng.random() < 0.6:
             cfg["depth"] = rng.choice([1, 2, 3, 4])
         if rng.random() < 0.5:
@@ -115,7 +118,7 @@ def inproc(ctx):
         res = mcgen.run_case(h, cfg, evs)
         selcases.append({"cfg": cfg, "forest": fo, "evs": evs, "res": res})
         cases.append({"cfg": cfg, "forest": fo, "evs": evs, "res": res, "complete": True})
-        ctx.case(key=("sel", repr(cfg), tuple(evs)), tags=["sel-spec", "shape:" + cfg["shape"]] +
+        ctx.case(key=("sel", repr(cfg), tuple(evs)), tags=["sel-spec", "shape:" + cfg["shape"], "filter-spelling:" + facts] +
                  ["sel:-F" if any(t["filter"] for t in cfg["trig"].values()) else "sel:no-F",
                   "sel:-N" if any(not t["filter"] for t in cfg["trig"].values()) else "sel:no-N"], size=len(evs))
     # ---- evaluate in Coq
@@ -226,10 +229,14 @@ def e2e(ctx, objdir):
         present = sorted({int(n.rsplit("_f", 1)[1]) for n in names.values()})
         ks = rng.sample(present, min(len(present), rng.randrange(1, 3)))     # a pattern that matches nothing
                                                                              # does not count as a filter
+        facts = rng.choice(["none", "all", "mixed"])
         for k in ks:
             inc = rng.random() < 0.6
             trig[k] = {"filter": inc}
-            opts += ["-F" if inc else "-N", "_f%d$" % k]
+            if facts == "all" or (facts == "mixed" and rng.random() < 0.5):
+                opts += ["-T", "_f%d$@%s" % (k, "filter" if inc else "notrace")]
+            else:
+                opts += ["-F" if inc else "-N", "_f%d$" % k]
         cfg = {"shape": "cyg" if method == "cyg" else "pg", "trig": trig}
         if rng.random() < 0.5:
             cfg["depth"] = rng.choice([1, 2, 3, 4])
